@@ -269,6 +269,33 @@ func (w *World) nextAction() (simrt.Action, bool) {
 			weights[iInject] = cfg.WInject
 		}
 	}
+	if cfg.BadBlockFocus && len(byz) > 0 && len(vs) > 0 {
+		// bad-block focus (swarm variant): a Byzantine proposer's first proposal of a round is, more often than
+		// not, a block with this run's kind of defect, made as soon as some validator is in that round - so that
+		// the honest validators meet it before their propose timeout and, if they accept it, commit it
+		for _, v := range vs {
+			id := w.proposerID(v.rs)
+			if id < 0 || !w.vals[id].byz || v.rs.Step > pbft.RoundStepPropose {
+				continue
+			}
+			pk := [2]int64{v.rs.Height, v.rs.Round}
+			if w.byzProposed[pk] > 0 {
+				continue
+			}
+			if w.byzProposed == nil {
+				w.byzProposed = map[[2]int64]int{}
+			}
+			w.byzProposed[pk]++
+			if w.Rng.Chance(2, 3) {
+				k := int(w.Cfg.Seed>>3) % len(badBlockKinds)
+				if w.Rng.Chance(1, 4) {
+					k = w.Rng.Intn(len(badBlockKinds))
+				}
+				return simrt.Action{K: "byz", N: id, S: "propose-bad", A: v.rs.Height, B: v.rs.Round, C: int64(k)}, true
+			}
+			break
+		}
+	}
 	switch w.Rng.Pick(weights) {
 	case iDeliver:
 		c := deliverable[w.Rng.Intn(len(deliverable))]
